@@ -281,3 +281,8 @@ V("C09", "history_sampling_nonstrict", "violation", (DISC, "            do_sampl
 V("C17", "pflow_measure_builtin_max", "violation", (PFLOW, "        mis = np.maximum(abs(fmax), abs(gmax))", "        mis = max(abs(fmax), abs(gmax))"), rule="C17.nan")
 V("C17", "daeint_measure_builtin_max", "violation", (DAEINT, "            mis = abs(mis_inc)\n", "            mis = max(0, abs(mis_inc))\n"), rule="C17.nan")
 V("C17", "benign_pflow_measure_npmax", "silent", (PFLOW, "        mis = np.maximum(abs(fmax), abs(gmax))", "        mis = np.max(np.abs(np.array([fmax, gmax])))"))
+V("C11", "group_set_bypasses_model_set", "violation", (GROUPF, "            mdl.set(src=src, idx=ii, attr=attr, value=val)\n", "            uid = mdl.idx2uid(ii)\n            mdl.__dict__[src].__dict__[attr][uid] = val\n"), rule="C11.invariant")
+V("C08", "eig_run_no_jacobian_refresh", "violation", (EIG, "            system.TDS.fg_update(system.exist.pflow_tds)\n            system.j_update(system.exist.pflow_tds)\n", "            pass\n"), rule="C08.fresh")
+V("C08", "benign_eig_refresh_via_itm_step", "silent", (EIG, "            system.TDS.fg_update(system.exist.pflow_tds)\n            system.j_update(system.exist.pflow_tds)\n", "            system.TDS.itm_step()\n"))
+V("C13", "mpc_end_marker_swallows_row", "violation", (MPCF, "            line = line.split(']')[0]\n            closing = True\n            if not has_digit.search(line):\n                field = None\n                continue\n", "            field = None\n            continue\n"), rule="C13.mpc-lexer")
+V("C13", "benign_mpc_end_marker_anchored", "silent", (MPCF, "    end = re.compile(r'\\s*\\];?')", "    end = re.compile(r'\\s*\\]\\s*;?')"))
